@@ -28,6 +28,69 @@ import (
 var hostileCounts = []uint32{0, 1, 2, 3, 99, 100, 101, 9999, 10000, 10001, 65535, 65536, 1 << 24, 1<<28 - 1, 1 << 28, 1<<28 + 1,
 	1<<29 - 1, 1 << 29, 1<<31 - 1, 1 << 31, 1<<31 + 1, 1<<32 - 2, 1<<32 - 1}
 
+// wrapCounts: for a decoder that multiplies a claimed 32-bit element count by a per-element
+// size s in 32-bit arithmetic, the counts c = ceil(k*2^32/s), k = 1..s-1, make c*s wrap to a
+// value < s, so a length guard "len(data) >= c*s" (or a cap that is skipped when the data
+// "holds" c elements) lets a count of hundreds of millions through on a tiny input. c-1 and
+// c+1 are included (c-1 is the control that wraps to just below 2^32).
+func wrapCounts(sizes []int) []uint32 {
+	seen := map[uint32]bool{}
+	var out []uint32
+	for _, s := range sizes {
+		for k := 1; k < s; k++ {
+			c := (uint64(k)<<32 + uint64(s) - 1) / uint64(s)
+			for _, d := range []int64{-1, 0, 1} {
+				v := uint32(int64(c) + d)
+				if !seen[v] {
+					seen[v] = true
+					out = append(out, v)
+				}
+			}
+		}
+	}
+	sort.Slice(out, func(i, j int) bool { return out[i] < out[j] })
+	return out
+}
+
+// plausible per-element sizes of the codecs (4 count, 5 header, 8 float, 9 header+count,
+// 13 EWKB header+count, 16 point, 17, 21 WKB point, 25 EWKB point, 32 two points, 37)
+var quickWrapSizes = []int{4, 5, 8, 9, 13, 16, 17, 21, 25, 32, 37}
+
+func allWrapSizes() []int {
+	out := make([]int, 0, 64)
+	for s := 1; s <= 64; s++ {
+		out = append(out, s)
+	}
+	return out
+}
+
+// drawWrapCount draws one wrap-around count for an element size in 1..64.
+func drawWrapCount(t *rapid.T) uint32 {
+	s := rapid.OneOf(rapid.SampledFrom(quickWrapSizes), rapid.IntRange(2, 64)).Draw(t, "ws")
+	k := rapid.IntRange(1, s-1).Draw(t, "wk")
+	c := (uint64(k)<<32 + uint64(s) - 1) / uint64(s)
+	return uint32(int64(c) + int64(rapid.IntRange(-1, 1).Draw(t, "wd")))
+}
+
+// drawCount draws a boundary count or (one time in three) a wrap-around count.
+func drawCount(t *rapid.T, label string) uint32 {
+	if rapid.IntRange(0, 2).Draw(t, label+"w") == 0 {
+		return drawWrapCount(t)
+	}
+	return hostileCounts[intn(t, len(hostileCounts), label)]
+}
+
+// wkbPointPayload is n well-formed WKB points (21 bytes each) in the given byte order.
+func wkbPointPayload(le bool, n int) []byte {
+	var out []byte
+	for i := 0; i < n; i++ {
+		h := wkbHeader(le, 1, 0)[:5]
+		out = append(out, h...)
+		out = append(out, wkbTail[:16]...)
+	}
+	return out
+}
+
 func clip(d []byte) []byte {
 	if len(d) > MaxInput {
 		return d[:MaxInput]
@@ -131,7 +194,7 @@ func mutateBytes(t *rapid.T, d []byte, marks []int) ([]byte, string) {
 			return d, "noop"
 		}
 		p := pos(t, n-4, marks, "wp")
-		v := hostileCounts[intn(t, len(hostileCounts), "wv")]
+		v := drawCount(t, "wv")
 		out := append([]byte(nil), d...)
 		if rapid.Bool().Draw(t, "wle") {
 			binary.LittleEndian.PutUint32(out[p:], v)
@@ -289,7 +352,7 @@ func genWKB(t *rapid.T) ([]byte, string) {
 				break
 			}
 			c := m.counts[intn(t, len(m.counts), "ci")]
-			v := hostileCounts[intn(t, len(hostileCounts), "cv")]
+			v := drawCount(t, "cv")
 			d = append([]byte(nil), d...)
 			if c.off+4 <= len(d) {
 				if c.le {
@@ -299,6 +362,20 @@ func genWKB(t *rapid.T) ([]byte, string) {
 				}
 			}
 			what = "count"
+			// a wrapped product is < 128: make sure that many bytes (>= 96) follow the count,
+			// as well-formed points or as raw coordinates
+			if len(d)-(c.off+4) < 96 {
+				switch rapid.IntRange(0, 2).Draw(t, "pad") {
+				case 0:
+					d = append(d, wkbPointPayload(c.le, 5)...)
+					what = "count+points"
+				case 1:
+					d = append(d, wkbTail...)
+					d = append(d, wkbTail...)
+					d = append(d, wkbTail...)
+					what = "count+coords"
+				}
+			}
 		case 2: // type word
 			if len(m.types) == 0 {
 				d, what = mutateBytes(t, d, nil)
@@ -931,7 +1008,7 @@ func packed(vs []uint32) []byte {
 
 func zz(v int) uint32 { return uint32((v << 1) ^ (v >> 31)) }
 
-var hostileCmdCounts = []uint32{0, 1, 2, 3, 4095, 4096, 1 << 20, 1 << 28, 1<<29 - 1}
+var hostileCmdCounts = []uint32{0, 1, 2, 3, 4095, 4096, 1 << 20, 1 << 27, 1<<27 + 1, 1<<28 - 1, 1 << 28, 1<<28 + 1, 1<<29 - 1}
 
 // genMVTGeometry draws the command stream of one feature and its geometry type;
 // with some probability one command integer is replaced by a hostile one.
@@ -983,6 +1060,10 @@ func genMVTGeometry(t *rapid.T) (uint32, []uint32, string) {
 		p := cmdPos[intn(t, len(cmdPos), "cp")]
 		id := uint32(rapid.IntRange(0, 7).Draw(t, "cid"))
 		cnt := hostileCmdCounts[intn(t, len(hostileCmdCounts), "ccnt")]
+		if rapid.IntRange(0, 2).Draw(t, "cwrap") == 0 {
+			// counts whose product with a small element size wraps in 32 bits (the count field has 29 bits)
+			cnt = drawWrapCount(t) & (1<<29 - 1)
+		}
 		g[p] = cnt<<3 | id
 		how = "geom-cmd"
 	case 1: // cut the stream
@@ -1118,7 +1199,7 @@ func appendShift(dst, src []int, shift int) []int {
 }
 
 var hostileVarints = [][]byte{{0}, {1}, {0x7f}, {0x80, 0x01}, {0xff, 0xff, 0x03}, {0x80, 0x80, 0x80, 0x80, 0x01}, {0xff, 0xff, 0xff, 0xff, 0x07},
-	{0xff, 0xff, 0xff, 0xff, 0x0f}, {0x80, 0x80, 0x80, 0x80, 0x10}, {0xff, 0xff, 0xff, 0xff, 0xff, 0xff, 0xff, 0xff, 0x7f},
+	{0xff, 0xff, 0xff, 0xff, 0x0f}, {0x80, 0x80, 0x80, 0x80, 0x10}, {0x91, 0x80, 0x80, 0x80, 0x10}, {0x80, 0x80, 0x80, 0x80, 0x08}, {0xff, 0xff, 0xff, 0xff, 0xff, 0xff, 0xff, 0xff, 0x7f},
 	{0xff, 0xff, 0xff, 0xff, 0xff, 0xff, 0xff, 0xff, 0xff, 0x01}, {0x80, 0x80, 0x80, 0x80, 0x80, 0x80, 0x80, 0x80, 0x80, 0x80, 0x01}, {0x80}, {0x80, 0x00}}
 
 func gz(d []byte) []byte {
